@@ -140,7 +140,8 @@ def run(rep: Report, repo: Repo, tier: str) -> None:
     cfg_var = rule_source_order(rep, repo, "C16-R1")
 
     # ---- R2 CLI table
-    rep.rule("C16-R2", "dotted argparse destinations are exactly paths of the template and default to None (also store_true)")
+    with rep.isolated():
+        rep.rule("C16-R2", "dotted argparse destinations are exactly paths of the template and default to None (also store_true)")
     tdict, tfn = template_dict(repo)
     titems = {sec: dict_items(v) if isinstance(v, ast.Dict) else None for sec, v in dict_items(tdict).items()}
     n_cli = 0
@@ -176,8 +177,9 @@ def run(rep: Report, repo: Repo, tier: str) -> None:
     rep.floor("C16-R2", 8, "CLI destinations")
 
     # ---- R3 three-way agreement
-    rep.rule("C16-R3", "template keys/types, settings dataclass fields and config_default.yaml keys/types agree; non-optional "
-                       "template keys have a YAML default; template defaults equal the documented YAML defaults")
+    with rep.isolated():
+        rep.rule("C16-R3", "template keys/types, settings dataclass fields and config_default.yaml keys/types agree; non-optional "
+                           "template keys have a YAML default; template defaults equal the documented YAML defaults")
     ysrc = repo.read("src/cminx/config_default.yaml")
     try:
         ydata = yaml.safe_load(ysrc)
@@ -235,8 +237,10 @@ def run(rep: Report, repo: Repo, tier: str) -> None:
     rep.floor("C16-R3", 25, "option triples")
 
     # ---- R4 union of exclude filters, R6 settings object from validated dict
-    rep.rule("C16-R4", "exclude filters are the concatenation over all sources, assigned after validation")
-    rep.rule("C16-R6", "the Settings object handed to document() is built by dict_to_settings from the validated dict only")
+    with rep.isolated():
+        rep.rule("C16-R4", "exclude filters are the concatenation over all sources, assigned after validation")
+    with rep.isolated():
+        rep.rule("C16-R6", "the Settings object handed to document() is built by dict_to_settings from the validated dict only")
     names: Dict[str, Tuple[int, ast.expr]] = {}
     for i, st in enumerate(main.body):
         if isinstance(st, ast.Assign) and isinstance(st.targets[0], ast.Name):
@@ -296,10 +300,12 @@ def run(rep: Report, repo: Repo, tier: str) -> None:
     rep.floor("C16-R6", 7, "settings construction facts")
 
     # ---- R5 relative_to_config
-    rule_output_dir_resolution(rep, repo, "C16-R5")
+    with rep.isolated():
+        rule_output_dir_resolution(rep, repo, "C16-R5")
     # the value in effect for an input is the layered one, not what an earlier input of the same run left behind
     from . import fsrules
-    fsrules.rule_isolation(rep, repo, "C16-R7")
+    with rep.isolated():
+        fsrules.rule_isolation(rep, repo, "C16-R7")
 
 
 def rule_output_dir_resolution(rep: Report, repo: Repo, rule: str) -> None:
